@@ -64,6 +64,10 @@ func PipelineFromFile(file string, opts ...PipelineOption) (*Pipeline, error) {
 		return nil, err
 	}
 
+	if err := cogyaml.ExpectSingleDocument(decoder); err != nil {
+		return nil, err
+	}
+
 	for _, opt := range opts {
 		opt(pipeline)
 	}
